@@ -27,6 +27,8 @@ pub open spec fn maxn(a: nat, b: nat) -> nat { if a >= b { a } else { b } }
 pub open spec fn sat_add(a: i64, b: i64) -> i64 { if a + b > i64::MAX { i64::MAX } else if a + b < i64::MIN { i64::MIN } else { (a + b) as i64 } }
 // the common marker width of an ordered list (C07): the wider of the first and the last marker
 pub open spec fn ol_width(start: i64, n: usize) -> nat { maxn(sw(ol_prefix(start)), sw(ol_prefix(sat_add(start, ((n as i64) - 1) as i64)))) }
+pub assume_specification [ i64::abs ] (a: i64) -> (r: i64) requires a != i64::MIN ensures r == (if a >= 0 { a as int } else { -(a as int) });
+pub assume_specification [ i64::unsigned_abs ] (a: i64) -> (r: u64) ensures r == (if a >= 0 { a as int } else { -(a as int) });
 pub assume_specification [ i64::saturating_add ] (a: i64, b: i64) -> (r: i64) ensures r == sat_add(a, b);
 pub assume_specification [ str::repeat ] (s: &str, n: usize) -> (r: String)
     ensures r@.len() == s@.len() * n, forall|i: int| 0 <= i < r@.len() ==> r@[i] == s@[i % (s@.len() as int)];
@@ -120,7 +122,7 @@ fn header_slice(renderer: &mut SubRenderer, size_estimate: SizeEstimate, level: 
 //@slice src/lib.rs :: fn do_render_node :: /let prefix = renderer\.unordered_item_prefix\(\);/ .. /TreeMapResult::PendingChildren \{/
 //@name ul_prefix_slice
 //@auto C01 C16 C07
-fn ul_prefix_slice(renderer: &mut SubRenderer) -> (r: (String, usize)) //@w[
+fn ul_prefix_slice(renderer: &mut SubRenderer, size_estimate: SizeEstimate) -> (r: (String, usize)) //@w[
     ensures r.1 == sw(r.0@), //@w @C16 @C07 #bullet_measured_by_display_width
 { //@w]
             let prefix = renderer.unordered_item_prefix();
